@@ -10,7 +10,7 @@
    The statements quantify over every configuration [c : cfg] and every state reachable by any history
    (through the invariant [inv], established for all histories by [reachable_inv]). *)
 From Common Require Import Prelude.
-From C11 Require Import Model Lemmas.
+From C11 Require Import Model Lemmas XModel XLemmas.
 Open Scope Z_scope.
 
 (* every state of every history satisfies the invariant: in a running game the mode's player and the
@@ -231,3 +231,242 @@ Theorem announce_one_per_variable :
   forall i st, map ev_name (announce i st) = map fst (filter (fun kv => simple (snd kv)) st).
 Proof. exact announce_names. Qed.
 Print Assumptions announce_one_per_variable.
+
+(* ============================================================================================== *)
+(* second layer (XModel.v): variable_player entries with several variables, `player:` overrides and machine
+   scope; optional game modes with restart_on_next_ball.  [xstep] extends [step]; the statements quantify over
+   every configuration [c : xcfg] and every state reachable by any history through [xinv]. *)
+
+(* every state of every history satisfies the invariant of both layers: [inv] of the game, and in a running
+   game the current player's restart list is empty and nobody beyond the player list has one; without a game
+   no optional mode runs *)
+Theorem x_reachable_inv : forall c ops, xinv c (xrun_ops c xinit ops).
+Proof. exact x_reachable_inv_l. Qed.
+Print Assumptions x_reachable_inv.
+
+(* how one variable's `player:` setting resolves (per variable, from the current player and the number of
+   players only): none / 0 -> the current player, an existing player -> that player, a missing one -> current *)
+Theorem vp_target_resolution :
+  forall n c, target n c None = c /\ target n c (Some 0) = c
+    /\ (forall z, 1 <= z <= Z.of_nat n -> target n c (Some z) = Z.to_nat (z - 1))
+    /\ (forall z, Z.of_nat n < z -> target n c (Some z) = c).
+Proof. exact target_resolution_l. Qed.
+Print Assumptions vp_target_resolution.
+
+(* one operation of any kind: a player who is neither up before nor after it and whom no variable that plays
+   names (xtargets: the resolved target of every variable whose condition holds, of every entry of the event
+   whose mode runs) keeps every variable.  In particular the position of a variable inside its entry and the
+   `player:` settings of the variables before it do not matter *)
+Theorem vp_step_frame :
+  forall c xs o j st, xinv c xs ->
+    ingame (xg xs) = true -> ingame (xg (fst (xstep c xs o))) = true ->
+    j <> cur (xg xs) -> j <> cur (xg (fst (xstep c xs o))) ->
+    (forall e arg, o = XPost e arg -> ~ In j (xtargets c xs e arg)) ->
+    nth_error (players (xg xs)) j = Some st ->
+    nth_error (players (xg (fst (xstep c xs o)))) j = Some st.
+Proof. exact xstep_frame_l. Qed.
+Print Assumptions vp_step_frame.
+
+(* variables without a `player:` that names an existing player are the current player's *)
+Theorem vp_default_targets_current :
+  forall c xs e arg,
+    forallb (names_nobody (length (players (xg xs)))) (active_sets c (mode_events (x_modes c) e (xrun xs)) e) = true ->
+    forall j, In j (xtargets c xs e arg) -> j = cur (xg xs).
+Proof. exact default_targets_current. Qed.
+Print Assumptions vp_default_targets_current.
+
+(* any operation sequence during player i's turn in which no variable that plays names player j leaves
+   players[j] unchanged *)
+Theorem vp_other_player_frame :
+  forall c ops xs i j st,
+    xinv c xs -> ingame (xg xs) = true -> cur (xg xs) = i -> j <> i -> xturn_of i j c xs ops ->
+    nth_error (players (xg xs)) j = Some st ->
+    nth_error (players (xg (xrun_ops c xs ops))) j = Some st.
+Proof. exact x_other_player_frame_l. Qed.
+Print Assumptions vp_other_player_frame.
+
+Example vp_frame_hypotheses_satisfiable :
+  xturn_of 1 2 ex_xcfg ex_x2 [XPost 200 2; XPost 210 0; XPost 200 0]
+  /\ xtargets ex_xcfg ex_x2 200 2 = [0; 1; 1]%nat
+  /\ (let xs' := fst (xstep ex_xcfg ex_x2 (XPost 200 2)) in
+      lookup 50 (store_of (xg xs') 0) = Some (VInt 1)
+      /\ lookup n_score (store_of (xg xs') 0) = lookup n_score (store_of (xg ex_x2) 0)
+      /\ lookup n_score (store_of (xg xs') 1) = Some (VInt 100)
+      /\ lookup 52 (store_of (xg xs') 1) = Some (VF8 4)
+      /\ lookup 50 (store_of (xg xs') 1) = None
+      /\ lookup 60 (xm xs') = Some (VInt 3)
+      /\ nth_error (players (xg xs')) 2 = nth_error (players (xg ex_x2)) 2
+      /\ map (fun e => (ev_idx e, ev_name e, ev_num e)) (snd (xstep ex_xcfg ex_x2 (XPost 200 2)))
+         = [(0%nat, 50, VInt 1); (1%nat, n_score, VInt 2); (1%nat, 52, VInt 2)]).
+Proof. exact ex_vp_frame. Qed.
+Print Assumptions vp_frame_hypotheses_satisfiable.
+
+(* scope: machine variables change only through add_machine / set_machine variables (never by a hand-over, a
+   start, or an entry of player actions), and an entry of machine actions touches no player and posts nothing *)
+Theorem vp_machine_scope :
+  forall c xs,
+    xm (fst (xstep c xs XStart)) = xm xs /\ xm (fst (xstep c xs XDrain)) = xm xs
+    /\ xm (fst (xstep c xs XEndGame)) = xm xs
+    /\ (forall e arg,
+          forallb (fun v => is_player_act (vs_act v)) (active_sets c (mode_events (x_modes c) e (xrun xs)) e) = true ->
+          xm (fst (xstep c xs (XPost e arg))) = xm xs)
+    /\ (forall e arg,
+          forallb (fun v => negb (is_player_act (vs_act v)))
+                  (active_sets c (mode_events (x_modes c) e (xrun xs)) e) = true ->
+          xg (fst (xstep c xs (XPost e arg))) = fst (step (x_base c) (xg xs) (Post e))
+          /\ snd (xstep c xs (XPost e arg)) = snd (step (x_base c) (xg xs) (Post e))).
+Proof. exact machine_scope_l. Qed.
+Print Assumptions vp_machine_scope.
+
+(* events of the extended operations: well formed, an exact chain per player and variable, and carrying the
+   number (index + 1) of the player whose variable changed — also when the variable was addressed by `player:` *)
+Theorem x_step_events_ok : forall c xs o, Forall ev_ok (snd (xstep c xs o)).
+Proof. exact xstep_events_ok_l. Qed.
+Print Assumptions x_step_events_ok.
+
+Theorem x_step_events_chain :
+  forall c xs o, xinv c xs -> ingame (xg xs) = true -> ingame (xg (fst (xstep c xs o))) = true ->
+    forall j y, (j < length (players (xg xs)))%nat ->
+      chain j y (lookup y (store_of (xg xs) j)) (snd (xstep c xs o))
+            (lookup y (store_of (xg (fst (xstep c xs o))) j)).
+Proof. exact xstep_chain_l. Qed.
+Print Assumptions x_step_events_chain.
+
+Theorem x_player_num_correct :
+  forall c, xcfg_num_ok c = true -> forall ops o,
+    Forall (fun e => ev_num e = VInt (Z.of_nat (ev_idx e) + 1)) (snd (xstep c (xrun_ops c xinit ops) o)).
+Proof. exact x_player_num_correct_l. Qed.
+Print Assumptions x_player_num_correct.
+
+(* restart_on_next_ball.  A ball ends and the game goes on: the list of the player whose ball ended holds
+   exactly the running restart_on_next_ball modes; for the player who is up now exactly what was recorded for
+   him is started, and his list is empty again *)
+Theorem restart_recorded_at_ball_end :
+  forall c xs o, xinv c xs -> ingame (xg xs) = true -> is_hand o ->
+    let xs' := fst (xstep c xs o) in
+    ingame (xg xs') = true ->
+    let i := cur (xg xs) in let i' := cur (xg xs') in
+    (i' = i -> xrun xs' = start_all (recorded (x_modes c) (xrun xs)))
+    /\ (i' <> i -> rl_get i (xrl xs') = recorded (x_modes c) (xrun xs)
+                   /\ xrun xs' = start_all (rl_get i' (xrl xs)))
+    /\ rl_get i' (xrl xs') = [].
+Proof. exact hand_over_restart_l. Qed.
+Print Assumptions restart_recorded_at_ball_end.
+
+(* nothing that happens while somebody else is up changes a player's list *)
+Theorem restart_list_frame :
+  forall c xs o j, xinv c xs ->
+    ingame (xg xs) = true -> ingame (xg (fst (xstep c xs o))) = true ->
+    j <> cur (xg xs) -> j <> cur (xg (fst (xstep c xs o))) ->
+    rl_get j (xrl (fst (xstep c xs o))) = rl_get j (xrl xs).
+Proof. exact xrl_frame_l. Qed.
+Print Assumptions restart_list_frame.
+
+(* restored exactly on the player's next ball: player i's ball ends while the optional modes [xrun xs] run; the
+   others play any operations (any number of turns, players added); when a ball of i starts again, exactly the
+   restart_on_next_ball modes among [xrun xs] run — whatever was recorded or restarted on earlier balls — and
+   i's list is empty *)
+Theorem restart_exact :
+  forall c xs i o1 ops o2,
+    xinv c xs -> ingame (xg xs) = true -> cur (xg xs) = i -> is_hand o1 ->
+    let xs1 := fst (xstep c xs o1) in
+    ingame (xg xs1) = true -> cur (xg xs1) <> i -> xaway i c xs1 ops ->
+    let xs2 := xrun_ops c xs1 ops in
+    is_hand o2 ->
+    let xs3 := fst (xstep c xs2 o2) in
+    ingame (xg xs3) = true -> cur (xg xs3) = i ->
+    xrun xs3 = start_all (recorded (x_modes c) (xrun xs)) /\ rl_get i (xrl xs3) = [].
+Proof. exact restart_exact_l. Qed.
+Print Assumptions restart_exact.
+
+(* the same player is up again at once (extra ball, one-player game) *)
+Theorem restart_same_player :
+  forall c xs o, xinv c xs -> ingame (xg xs) = true -> is_hand o ->
+    let xs' := fst (xstep c xs o) in
+    ingame (xg xs') = true -> cur (xg xs') = cur (xg xs) ->
+    xrun xs' = start_all (recorded (x_modes c) (xrun xs)).
+Proof. exact restart_same_player_l. Qed.
+Print Assumptions restart_same_player.
+
+(* mode by mode: k runs after the restart iff it is a restart_on_next_ball mode that ran when the ball ended
+   (a mode the player stopped does not come back) *)
+Theorem restarted_modes_iff :
+  forall c run k,
+    In k (start_all (recorded (x_modes c) run))
+    <-> exists m, In m (x_modes c) /\ m_id m = k /\ m_restart m = true /\ In k run.
+Proof. exact restarted_iff. Qed.
+Print Assumptions restarted_modes_iff.
+
+Example restart_hypotheses_satisfiable :
+  is_hand XDrain /\ ingame (xg ex_x2) = true /\ cur (xg ex_x2) <> 0%nat /\ xaway 0 ex_xcfg ex_x2 ex_away_x
+  /\ running_obs (x_modes ex_xcfg) (xrun (xrun_ops ex_xcfg ex_x2 ex_away_x)) = [3]
+  /\ ingame (xg ex_x3) = true /\ cur (xg ex_x3) = 0%nat
+  /\ xrun ex_x3 = [2] /\ rl_get 0 (xrl ex_x3) = []
+  /\ (let b3 := xrun_ops ex_xcfg ex_x3 [XPost 312 0; XDrain; XDrain; XDrain] in
+      ingame (xg b3) = true /\ cur (xg b3) = 0%nat
+      /\ lookup n_ball (store_of (xg b3) 0) = Some (VInt 3) /\ xrun b3 = []).
+Proof. exact ex_restart. Qed.
+Print Assumptions restart_hypotheses_satisfiable.
+
+(* achievements (player.achievements[name] = [state, selected], in XModel.v).  Frame: whatever happens while
+   somebody else is up, before and after the operation, leaves a player's records alone *)
+Theorem ach_other_player_frame :
+  forall c xs o j, xinv c xs ->
+    ingame (xg xs) = true -> ingame (xg (fst (xstep c xs o))) = true ->
+    j <> cur (xg xs) -> j <> cur (xg (fst (xstep c xs o))) ->
+    rl_get j (xach (fst (xstep c xs o))) = rl_get j (xach xs).
+Proof. exact ach_frame_l. Qed.
+Print Assumptions ach_other_player_frame.
+
+(* restore: when a ball of player i starts again his records are the configured image (ach_load =
+   Achievement._restore_state) of his records at the end of his previous ball, whatever the others did *)
+Theorem ach_restore_exact :
+  forall c xs i o1 ops o2,
+    xinv c xs -> ingame (xg xs) = true -> cur (xg xs) = i -> is_hand o1 ->
+    let xs1 := fst (xstep c xs o1) in
+    ingame (xg xs1) = true -> cur (xg xs1) <> i -> xaway i c xs1 ops ->
+    let xs2 := xrun_ops c xs1 ops in
+    is_hand o2 ->
+    let xs3 := fst (xstep c xs2 o2) in
+    ingame (xg xs3) = true -> cur (xg xs3) = i ->
+    rl_get i (xach xs3) = ach_map ach_load (x_achs c) (rl_get i (xach xs)).
+Proof. exact ach_restore_exact_l. Qed.
+Print Assumptions ach_restore_exact.
+
+Theorem ach_restore_same_player :
+  forall c xs o, ingame (xg xs) = true -> is_hand o ->
+    let xs' := fst (xstep c xs o) in
+    ingame (xg xs') = true -> cur (xg xs') = cur (xg xs) ->
+    rl_get (cur (xg xs)) (xach xs') = ach_map ach_load (x_achs c) (rl_get (cur (xg xs)) (xach xs)).
+Proof. exact ach_same_player_l. Qed.
+Print Assumptions ach_restore_same_player.
+
+(* initial values: a new game starts player 1 from the configured initial state of every achievement; a player
+   who is added has no records, and loading for a player without records gives the initial state *)
+Theorem ach_new_game_initial :
+  forall c xs, ingame (xg xs) = false ->
+    let xs' := fst (xstep c xs XStart) in
+    rl_get (cur (xg xs')) (xach xs') = map (fun h => Some (h_init h, false)) (x_achs c).
+Proof. exact ach_new_game_l. Qed.
+Print Assumptions ach_new_game_initial.
+
+Theorem ach_added_player_empty :
+  forall c xs, xinv c xs -> ingame (xg xs) = true ->
+    rl_get (length (players (xg xs))) (xach (fst (xstep c xs XStart))) = [].
+Proof. exact ach_added_player_l. Qed.
+Print Assumptions ach_added_player_empty.
+
+Theorem ach_first_ball_initial :
+  forall hs, ach_map ach_load hs [] = map (fun h => Some (h_init h, false)) hs.
+Proof. exact ach_first_ball_l. Qed.
+Print Assumptions ach_first_ball_initial.
+
+Example ach_hypotheses_satisfiable :
+  ingame (xg ex_a1) = true /\ cur (xg ex_a1) = 0%nat /\ rl_get 0 (xach ex_a1) = [Some (AStarted, false)]
+  /\ cur (xg (fst (xstep ex_xcfg ex_a1 XDrain))) <> 0%nat
+  /\ xaway 0 ex_xcfg (fst (xstep ex_xcfg ex_a1 XDrain)) ex_away_x
+  /\ ingame (xg ex_a3) = true /\ cur (xg ex_a3) = 0%nat
+  /\ rl_get 0 (xach ex_a3) = [Some (AStopped, false)]
+  /\ rl_get 1 (xach ex_a3) = [Some (ADisabled, false)].
+Proof. exact ex_ach. Qed.
+Print Assumptions ach_hypotheses_satisfiable.
